@@ -31,6 +31,8 @@ LEVEL_TEXT = {
 
 def design_models(tier):
     out = []
+    if os.environ.get("VERIF_TRACES_ONLY") == "1":      # selftest: the design models do not depend on the code
+        return [{"module": "skipped", "states": 0, "transitions": 0, "depth": 0, "wall_s": 0}]
     for mod, cfg, to in DESIGN[tier]:
         r = tlc.run_tlc(mod, cfg, timeout=to, tag=mod)
         if not r.ok:
